@@ -32,7 +32,47 @@ func connectPkt(clean bool, will *packet.Message) *packet.Connect {
 }
 
 func pub(id int, qos int, dup bool) *packet.Publish {
-	return &packet.Publish{ID: packet.ID(id), Dup: dup, Message: packet.Message{Topic: "t", Payload: []byte{byte(id)}, QOS: packet.QOS(qos)}}
+	// even ids carry the retain flag, so that every field of a message handed on is seen with both values
+	return &packet.Publish{ID: packet.ID(id), Dup: dup, Message: packet.Message{Topic: "t", Payload: []byte{byte(id)}, QOS: packet.QOS(qos), Retain: id%2 == 0}}
+}
+
+func connectKA(clean bool, will *packet.Message, keepAlive uint16) *packet.Connect {
+	c := connectPkt(clean, will)
+	c.KeepAlive = keepAlive
+	return c
+}
+
+// traffic in both directions over the same packet ids: deliveries to the client (ids 1, 2 allocated by the session) while
+// the client publishes QoS 2 messages under ids 1 and 2 itself; acknowledgements of one direction must not touch the other
+func bidir(family string) []*scenario {
+	var out []*scenario
+	base := []step{in(connectPkt(false, nil)),
+		{kind: "deq", msg: msg(1, 1)}, {kind: "deq", msg: msg(2, 2)},
+		in(pub(1, 2, false)), in(pub(2, 2, false)),
+		in(&packet.Puback{ID: 1}), in(&packet.Pubrec{ID: 2}),
+		in(&packet.Pubrel{ID: 1}), in(&packet.Pubcomp{ID: 2}), in(&packet.Pubrel{ID: 2}),
+		{kind: "deq", msg: msg(3, 1)}, in(pub(3, 1, false)), in(&packet.Puback{ID: 3}), in(&packet.Pubrel{ID: 1})}
+	resume := []step{{kind: "inerr"}, {kind: "reconnect", resumed: true}, in(connectPkt(false, nil))}
+	with := func(pos int, tail ...step) []step {
+		st := append([]step(nil), base[:pos]...)
+		if pos < len(base) {
+			st = append(st, resume...)
+			st = append(st, base[pos:]...)
+		}
+		return append(st, tail...)
+	}
+	for _, pos := range []int{len(base), 4, 6, 7, 9} {
+		out = append(out, &scenario{family: family, name: fmt.Sprintf("bidir-x%d-sync", pos), w: 3, steps: with(pos)})
+		out = append(out, &scenario{family: family, name: fmt.Sprintf("bidir-x%d-late", pos), w: 3, mode: ackLate, steps: with(pos, step{kind: "ackall"})})
+		out = append(out, &scenario{family: family, name: fmt.Sprintf("bidir-x%d-other", pos), w: 3, mode: ackOther, steps: with(pos)})
+	}
+	for k := 2; k <= 9; k++ {
+		out = append(out, &scenario{family: family, name: fmt.Sprintf("bidir-fs%d", k), w: 3, steps: with(len(base)), failSend: map[int]map[int]bool{1: {k: true}}})
+	}
+	for k := 1; k <= 12; k++ {
+		out = append(out, &scenario{family: family, name: fmt.Sprintf("bidir-fq%d", k), w: 3, deqAck: k%2 == 0, steps: with(len(base)), failSess: map[int]bool{k: true}})
+	}
+	return out
 }
 
 func msg(n int, qos int) *packet.Message {
@@ -62,6 +102,31 @@ func famC20(c *hx.Ctx) []*scenario {
 	// every type as first packet
 	for i, p := range all {
 		add(&scenario{name: fmt.Sprintf("first-%d", i), steps: []step{in(p)}})
+	}
+	// anything else first, then a CONNECT: the connection is closed at the first packet, the CONNECT is never looked at
+	for i, p := range all[1:] {
+		add(&scenario{name: fmt.Sprintf("first-%d-then-connect", i+1), steps: []step{in(p), in(connectPkt(true, nil)), in(all[9])}})
+	}
+	// a server-only packet or a second CONNECT in mid-stream, followed by requests that must not be served any more
+	for _, i := range []int{0, 1, 10, 12, 14} {
+		add(&scenario{name: fmt.Sprintf("stray-%d-then-requests", i), steps: []step{in(connectPkt(true, nil)), in(&packet.Pingreq{}), in(all[i]), in(all[9]), in(&packet.Pingreq{}), in(all[11])}})
+	}
+	// boundary packet ids
+	for _, id := range []int{1, 65535} {
+		add(&scenario{name: fmt.Sprintf("ids-%d", id), mode: ackLate, steps: []step{in(connectPkt(true, nil)),
+			in(&packet.Subscribe{ID: packet.ID(id), Subscriptions: []packet.Subscription{{Topic: "a", QOS: 2}}}),
+			in(&packet.Unsubscribe{ID: packet.ID(65536 - id), Topics: []string{"a"}}), in(pub(id, 1, false)), in(pub(65536-id, 2, false)), in(&packet.Pubrel{ID: packet.ID(65536 - id)}),
+			{kind: "ack", k: 4}, {kind: "ack", k: 2}, {kind: "ack", k: 3}, {kind: "ack", k: 1}}})
+	}
+	// nothing configured by the backend: the documented defaults (10 parallel subscribes) apply: ten requests are taken,
+	// the eleventh waits for a token
+	{
+		st := []step{in(connectPkt(true, nil))}
+		for i := 1; i <= 11; i++ {
+			st = append(st, in(&packet.Subscribe{ID: packet.ID(i), Subscriptions: []packet.Subscription{{Topic: "a", QOS: 1}}}))
+		}
+		st = append(st, step{kind: "settle"}, step{kind: "settle"})
+		add(&scenario{name: "defaults-sub-tokens", defaults: true, mode: ackNever, tokenTO: 40 * time.Millisecond, steps: st})
 	}
 	// authentication and setup outcomes, followed by traffic that must not be processed
 	for _, auth := range []string{"deny", "err"} {
@@ -260,6 +325,26 @@ func famC07(c *hx.Ctx) []*scenario {
 		}
 		add(&scenario{name: "pub-token-turnover", pp: 2, tokenTO: 300 * time.Millisecond, steps: st})
 	}
+	// retransmitted QoS 1 PUBLISH (dup flag): on the same connection, after a resume, with every acknowledgement mode
+	for _, m := range modes {
+		st := []step{in(connectPkt(false, nil)), in(pub(3, 1, true)), in(pub(4, 1, false)), in(pub(4, 1, true))}
+		st = append(st, resume...)
+		st = append(st, in(pub(4, 1, true)), in(pub(3, 1, true)), step{kind: "ackall"}, in(&packet.Subscribe{ID: 5, Subscriptions: []packet.Subscription{{Topic: "probe", QOS: 0}}}))
+		add(&scenario{name: fmt.Sprintf("q1-dup-m%d", m), mode: m, steps: st})
+	}
+	// the client's own deliveries interleaved with its publishes, same packet ids in both directions
+	for _, sc := range bidir("c07") {
+		add(sc)
+	}
+	// nothing configured by the backend: ten parallel publishes by default, the eleventh waits for a token
+	{
+		st := []step{in(connectPkt(false, nil))}
+		for i := 1; i <= 11; i++ {
+			st = append(st, in(pub(i, 1+i%2, false)))
+		}
+		st = append(st, step{kind: "settle"}, step{kind: "settle"})
+		add(&scenario{name: "defaults-pub-tokens", defaults: true, mode: ackNever, tokenTO: 40 * time.Millisecond, steps: st})
+	}
 	// publish token exhaustion
 	add(&scenario{name: "pub-tokens", mode: ackLate, pp: 2, steps: []step{in(connectPkt(false, nil)), in(pub(1, 1, false)), in(pub(2, 1, false)), in(pub(3, 1, false)),
 		{kind: "ack", k: 2}, {kind: "ack", k: 1}, {kind: "ack", k: 3}}})
@@ -340,6 +425,38 @@ func famC08(c *hx.Ctx) []*scenario {
 				add(sc)
 			}
 		}
+	}
+	// the backend wants its own acknowledgement for every dequeued message (Dequeue's closure): with every session call
+	// and every send failing in turn
+	{
+		steps := []step{in(connectPkt(false, nil)), {kind: "deq", msg: msg(1, 1)}, {kind: "deq", msg: msg(2, 2)}, {kind: "deq", msg: msg(0, 0)}, {kind: "deq", msg: msg(3, 1)}}
+		for k := 1; k <= 8; k++ {
+			add(&scenario{name: fmt.Sprintf("deqack-fq%d", k), w: 3, deqAck: true, steps: steps, failSess: map[int]bool{k: true}})
+		}
+		for k := 2; k <= 6; k++ {
+			add(&scenario{name: fmt.Sprintf("deqack-fs%d", k), w: 3, deqAck: true, steps: steps, failSend: map[int]map[int]bool{1: {k: true}}})
+		}
+	}
+	// reconnect with a clean session (the backend hands out a fresh session): nothing is resumed, nothing re-sent,
+	// session-present is false; then an unclean reconnect on top of it
+	{
+		cleanRc := []step{{kind: "inerr"}, {kind: "reconnect", resumed: false, fresh: true}, in(connectPkt(true, nil))}
+		for i, pre := range [][]step{
+			{{kind: "deq", msg: msg(1, 1)}},
+			{{kind: "deq", msg: msg(1, 1)}, {kind: "deq", msg: msg(2, 2)}, in(&packet.Pubrec{ID: 2})},
+			{{kind: "deq", msg: msg(2, 2)}, {kind: "deq", msg: msg(0, 0)}},
+		} {
+			st := append([]step{in(connectPkt(false, nil))}, pre...)
+			st = append(st, cleanRc...)
+			st = append(st, step{kind: "deq", msg: msg(5, 1)}, step{kind: "deq", msg: msg(6, 2)})
+			st = append(st, drop...)
+			st = append(st, in(&packet.Puback{ID: 1}), in(&packet.Pubrec{ID: 2}), in(&packet.Pubcomp{ID: 2}))
+			add(&scenario{name: fmt.Sprintf("clean-reconnect-%d", i), w: 2, steps: st})
+		}
+	}
+	// the client's own publishes interleaved with the deliveries to it, same packet ids in both directions
+	for _, sc := range bidir("c08") {
+		add(sc)
 	}
 	// session-present flag: every combination of clean flag and resumed result
 	for _, clean := range []bool{false, true} {
@@ -443,7 +560,7 @@ func famC16(c *hx.Ctx) []*scenario {
 			}
 		}
 		steps = append(steps, step{kind: "react", name: "immediate"}, step{kind: "drain"})
-		sc := &scenario{name: fmt.Sprintf("rand%d-w%d-n%d", r, w, n), w: w, react: reacts[c.Rng.Intn(4)], steps: steps}
+		sc := &scenario{name: fmt.Sprintf("rand%d-w%d-n%d", r, w, n), w: w, react: reacts[c.Rng.Intn(4)], steps: steps, expectDrained: true}
 		switch c.Rng.Intn(6) {
 		case 0:
 			sc.failSend = map[int]map[int]bool{1: {2 + c.Rng.Intn(2*n+2): true}}
@@ -451,6 +568,55 @@ func famC16(c *hx.Ctx) []*scenario {
 			sc.failSess = map[int]bool{1 + c.Rng.Intn(3*n+3): true}
 		}
 		add(sc)
+	}
+	for w := 1; w <= 3; w++ {
+		// a PUBREC does not free the slot: window+1 QoS 2 deliveries, every PUBREC sent, every PUBCOMP withheld
+		steps := []step{in(connectPkt(false, nil))}
+		for i := 0; i < w+1; i++ {
+			steps = append(steps, step{kind: "deq", msg: msg(i, 2)})
+		}
+		steps = append(steps, step{kind: "drain"}, step{kind: "settle"})
+		add(&scenario{name: fmt.Sprintf("w%d-recstall-full", w), w: w, react: "recstall", steps: steps})
+		// the client's own publishes (acknowledged to it through the same acker) do not free window slots either
+		steps = []step{in(connectPkt(false, nil))}
+		for i := 0; i < w; i++ {
+			steps = append(steps, step{kind: "deq", msg: msg(i, 1+i%2)})
+		}
+		steps = append(steps, in(pub(50, 1, false)), in(pub(51, 2, false)), in(&packet.Pubrel{ID: 51}), in(pub(52, 0, false)),
+			step{kind: "deq", msg: msg(20, 1)}, step{kind: "deq", msg: msg(21, 2)}, step{kind: "settle"})
+		add(&scenario{name: fmt.Sprintf("w%d-own-publishes", w), w: w, steps: steps})
+		// QoS 0 only: more messages than the window, nothing to acknowledge, everything must flow
+		steps = []step{in(connectPkt(false, nil))}
+		for i := 0; i < 3*w+1; i++ {
+			steps = append(steps, step{kind: "deq", msg: msg(i, 0)})
+		}
+		steps = append(steps, step{kind: "drain"})
+		add(&scenario{name: fmt.Sprintf("w%d-qos0-only", w), w: w, react: "immediate", steps: steps, expectDrained: true})
+	}
+	// nothing configured by the backend: the documented default window of 10: twelve unacknowledged messages, ten are
+	// sent; then everything is acknowledged and the rest must follow
+	{
+		steps := []step{in(connectPkt(false, nil)), {kind: "react", name: "none"}}
+		for i := 0; i < 12; i++ {
+			steps = append(steps, step{kind: "deq", msg: msg(i, 1+i%2)})
+		}
+		steps = append(steps, step{kind: "settle"}, step{kind: "react", name: "immediate"}, step{kind: "drain"})
+		add(&scenario{name: "defaults-window", defaults: true, react: "immediate", steps: steps, expectDrained: true})
+	}
+	// long streams (20 x window) and the large windows also in the quick tier: a slot lost once in a while shows late
+	for _, x := range []struct {
+		w, n  int
+		react string
+	}{{2, 40, "immediate"}, {3, 60, "reverse"}, {1, 20, "slow"}, {7, 21, "reverse"}, {10, 30, "batched"}, {10, 25, "immediate"}} {
+		steps := []step{in(connectPkt(false, nil))}
+		for i := 0; i < x.n; i++ {
+			steps = append(steps, step{kind: "deq", msg: msg(i, (i+i/3)%3)})
+			if i == x.n/2 {
+				steps = append(steps, step{kind: "drain"}, step{kind: "inerr"}, step{kind: "reconnect", resumed: true}, in(connectPkt(false, nil)), step{kind: "drain"})
+			}
+		}
+		steps = append(steps, step{kind: "react", name: "immediate"}, step{kind: "drain"})
+		add(&scenario{name: fmt.Sprintf("long-w%d-n%d-%s", x.w, x.n, x.react), w: x.w, react: x.react, steps: steps, expectDrained: true})
 	}
 	// dequeue token timeout: nothing acknowledged, window full
 	add(&scenario{name: "deq-token-timeout", w: 1, tokenTO: 20 * time.Millisecond, steps: []step{in(connectPkt(false, nil)), {kind: "deq", msg: msg(1, 1)},
@@ -512,6 +678,24 @@ func famC12(c *hx.Ctx) []*scenario {
 		add(&scenario{name: fmt.Sprintf("will%d-setuperr", wi), setup: "err", steps: []step{in(connectPkt(true, w))}})
 		add(&scenario{name: fmt.Sprintf("will%d-connack-unsendable", wi), failSend: map[int]map[int]bool{1: {1: true}}, steps: []step{in(connectPkt(true, w))}})
 		add(&scenario{name: fmt.Sprintf("will%d-restore-fail", wi), restoreFail: true, steps: []step{in(connectPkt(true, w))}})
+		// keep-alive expiry: the broker arms a read timeout of 1.5 x the effective keep alive (requested, capped by the
+		// maximum the backend allows; the maximum when none is requested) and a silent client is dropped by it
+		for si, stt := range []state{states[0], states[1], states[6]} {
+			for ki, ka := range []uint16{0, 1} {
+				steps := []step{in(connectKA(true, w, ka))}
+				steps = append(steps, stt.st...)
+				steps = append(steps, step{kind: "idle", wait: time.Second})
+				add(&scenario{name: fmt.Sprintf("will%d-keepalive-expiry-%s-ka%d", wi, stt.name, ka), mode: stt.mode, maxKA: 40 * time.Millisecond,
+					wantTimeout: 60 * time.Millisecond, steps: steps})
+				_, _ = si, ki
+			}
+		}
+		for _, x := range []struct {
+			ka   uint16
+			want time.Duration
+		}{{0, 450 * time.Second}, {1, 1500 * time.Millisecond}, {60, 90 * time.Second}, {300, 450 * time.Second}, {301, 450 * time.Second}, {65535, 450 * time.Second}} {
+			add(&scenario{name: fmt.Sprintf("will%d-keepalive-armed-%d", wi, x.ka), wantTimeout: x.want, steps: []step{in(connectKA(true, w, x.ka)), {kind: "inerr"}}})
+		}
 		// blocked on a token
 		add(&scenario{name: fmt.Sprintf("will%d-token-timeout", wi), mode: ackNever, pp: 1, tokenTO: 20 * time.Millisecond,
 			steps: []step{in(connectPkt(true, w)), in(pub(1, 1, false)), in(pub(2, 1, false)), {kind: "settle"}}})
@@ -607,6 +791,11 @@ func runBC(c *hx.Ctx) {
 			c.Emit("ev %d %s", i, l)
 		}
 		events += len(r.lines)
+		for _, d := range r.direct {
+			f := strings.SplitN(d, " ", 2)
+			c.Emit("direct %s scn=%d %s | %s", f[0], i, f[1], sc.text())
+			c.Stat("direct_clauses", 1)
+		}
 		if r.watchdog {
 			c.Emit("end %d watchdog", i)
 			c.Emit("direct liveness scn=%d FAIL the connection did not reach Closed within %v: %s", i, settleMax, sc.text())
